@@ -232,6 +232,9 @@ PROPS["C14"] = dict(
     technique="Lean 4: position tracking through the transcribed Join program over all schedules (join_reads_ordered, join_snapshot, join_includes_snapshot, join_heads_are_entries, cross_join_deadlock_free); controlled schedules with park points between the two reads of the source",
     level_text="Kernel-checked over all schedules: a merge uses the source's heads as of instant a and its entries as of instant b >= a; if the source only grows, the heads read are entries of what was read, the merge adds exactly entries of the source's state at instant a, the result lies between dest and dest U that snapshot and contains all of it, and every head of the result is one of its entries; any pattern of concurrent merges (cross, cyclic) never deadlocks and a merge takes a bounded number of moves. Counter-schedules for the pre-repair order are kept as examples. Tied to the code by parking Join between its reads and interleaving appends/merges on the source, and by the extracted no-lock-while-holding fact.",
     level_note=CONC_NOTE, design_ref="§8 C14", rule=CONC_RULE)
+# locks below the log's own (the OrderedMap's) are outside the controlled schedules: a free-running stress of merges
+# from logs that are being appended to, under the race detector and a termination watchdog, is part of the check
+PROPS["C14"]["race_stress"] = dict(stream="conc-stress", ms_quick=4000, ms_thorough=60000)
 
 PROPS["C17"] = dict(
     title="The block store is causally closed at every instant (crash safety)",
